@@ -73,7 +73,9 @@ def make_origin(kind, shape, rng):
     dlm = rng.choice(["", "", "COMMA", "TAB"])
     sep = {"": " ", "COMMA": ",", "TAB": "\t"}[dlm]
     lines = ["~Version", "VERS. 2.0 : v", "WRAP. NO : w"] + (["DLM. %s : delimiter" % dlm] if dlm else []) + ["~Well",
-             "STRT.M %r : start" % float(idx[0]), "STOP.M %r : stop" % float(stop), "STEP.M %r : step" % float(step),
+             "STRT.M %r : start" % float(idx[0]), "STOP.M %r : stop" % float(stop),
+             # (sometimes a STEP item without unit and value: what irregular or single-sample files carry)
+             ("STEP.M %r : step" % float(step)) if rng.random() < 0.7 else "STEP.  : step",
              "NULL. -999.25 : null", "WELL. W-2 : well", "FLD.u  : empty with unit", "~Curves",
              "DEPT.M : depth", "GR.gAPI : gamma", "GR. : again", "~Params", "BHT.degC  : empty", "MUD. x : mud",
              "~Other", "some text", "~ASCII"]
